@@ -283,7 +283,8 @@ def random_case(draw, tier):
 # ------------------------------------------------------------------ histories: topologies added between accesses
 @st.composite
 def history_op(draw):
-    k = draw(st.sampled_from(["load", "load", "walk", "walk", "index", "slice", "partial", "len", "absent", "reload"]))
+    k = draw(st.sampled_from(["load", "load", "walk", "walk", "index", "slice", "partial", "len", "absent", "reload",
+                              "iter", "adv", "adv", "zip", "lookalike"]))
     return [k, draw(st.integers(0, 50)), draw(st.integers(-8, 8)), draw(st.sampled_from([-2, -1, 1, 2, 3])),
             draw(st.sampled_from(["ftop", "moltop", "fileobj"]))]
 
@@ -322,6 +323,7 @@ def check_history(case):
     loaded += first
     pending = pending[len(first):]
     handles = []
+    live = []
     walked_then_loaded = False
     walked = False
     nloads_after_walk = 0
@@ -398,6 +400,59 @@ def check_history(case):
                     if mol_view(m) != tuple(exp[k]):
                         raise PropertyViolation("history-iterate", "%s, step %d: molecule %d of a partial iteration is %s, "
                                                 "expected %s" % (label(), step, k, m.name, exp[k][0]), cls="history-iterate")
+            elif kind == "iter":
+                # a live iterator kept across the following operations (two consumers of one System)
+                if len(live) < 3:
+                    live.append([iter(syst), 0, len(loaded)])
+            elif kind == "adv":
+                if not live:
+                    live.append([iter(syst), 0, len(loaded)])
+                it = live[a % len(live)]
+                if it[2] != len(loaded):
+                    live.remove(it)          # started before a further topology was loaded: not comparable any more
+                    continue
+                for _ in range(1 + a % 3):
+                    try:
+                        m = lib("iterator-next", next, it[0])
+                    except PropertyViolation as exc:
+                        if "StopIteration" in exc.message and it[1] == n:
+                            live.remove(it)
+                            break
+                        raise PropertyViolation("history-interleaved", "%s, step %d: resuming a live iterator at molecule "
+                                                "%d after other accesses: %s" % (label(), step, it[1], exc.message),
+                                                cls="history-interleaved")
+                    if it[1] >= n or mol_view(m) != tuple(exp[it[1]]):
+                        raise PropertyViolation("history-interleaved", "%s, step %d: a live iterator resumed after other "
+                                                "accesses yields %s as molecule %d, the file has %s"
+                                                % (label(), step, m.name, it[1], exp[it[1]][0] if it[1] < n else "no more"),
+                                                cls="history-interleaved")
+                    it[1] += 1
+            elif kind == "zip":
+                pairs = lib("zip", lambda: [(mol_view(x), mol_view(y)) for x, y in zip(syst, syst)])
+                if [p[0] for p in pairs] != [tuple(e) for e in exp] or [p[1] for p in pairs] != [tuple(e) for e in exp]:
+                    raise PropertyViolation("history-interleaved", "%s, step %d: zip(system, system) does not yield every "
+                                            "molecule twice" % (label(), step), cls="history-interleaved")
+                walked = True
+            elif kind == "lookalike":
+                # a topology with the residue signature of a loaded-or-loadable species but other atom names is refused
+                # and leaves the System as it was (error-then-continue)
+                cand = [sp for sp in present]
+                if not cand:
+                    continue
+                sp = cand[a % len(cand)]
+                fake = [[rn, ["X%d" % (i + 1) for i in range(len(names))]] for rn, names in species[sp]]
+                fp = env.fresh_path(".itp")
+                with open(fp, "w") as f:
+                    f.write(species_itp("FAKE", fake))
+                try:
+                    with env.quiet():
+                        syst.add_ftop(fp)
+                except Exception:     # noqa: BLE001
+                    pass
+                else:
+                    raise PropertyViolation("history-refused", "%s, step %d: a topology whose atom names do not match the "
+                                            "file (residue signature of %s) was accepted" % (label(), step, sp))
+                light(step, "after a refused look-alike topology")
             elif kind in ("absent", "reload"):
                 pool = absent if kind == "absent" else loaded
                 if not pool:
